@@ -238,6 +238,49 @@ func (e *Exec) intrinsic(fn *ssa.Function, args []Value) (Value, bool) {
 		return IntV{T: e.P.Ite(e.P.Cmp("bvslt", a, b), e.P.BV(64, ^uint64(0)), e.P.Ite(e.P.Cmp("bvsgt", a, b), e.P.BV(64, 1), e.P.BV(64, 0))), Signed: true}, true
 	case "time.Now":
 		return e.now(), true
+	case "time.After", "time.Tick":
+		var period *Term
+		if name == "time.Tick" {
+			period = args[0].(IntV).T
+		}
+		_, ch := e.newTimerChan(args[0].(IntV).T, period)
+		return ch, true
+	case "time.NewTimer", "time.NewTicker":
+		var period *Term
+		if name == "time.NewTicker" {
+			period = args[0].(IntV).T
+		}
+		te, ch := e.newTimerChan(args[0].(IntV).T, period)
+		tt := fn.Signature.Results().At(0).Type().(*types.Pointer).Elem()
+		sv := e.zero(tt).(*StructV)
+		sv.F[0] = ch // field C
+		obj := e.newObj(sv)
+		if e.timerObjs == nil {
+			e.timerObjs = map[*Object]*timerEnt{}
+		}
+		e.timerObjs[obj] = te
+		return PtrV{Obj: obj}, true
+	case "(*time.Timer).Stop", "(*time.Ticker).Stop":
+		te := e.timerObjs[args[0].(PtrV).Obj]
+		was := te != nil && te.live()
+		if te != nil {
+			te.stopped = true
+		}
+		if fn.Signature.Results().Len() == 0 {
+			return nil, true
+		}
+		return BoolV{e.P.Bool(was)}, true
+	case "(*time.Timer).Reset", "(*time.Ticker).Reset":
+		te := e.timerObjs[args[0].(PtrV).Obj]
+		was := te != nil && te.live()
+		if te != nil {
+			te.stopped = false
+			te.deadline = e.timeAdd(e.now().NS, args[1].(IntV).T)
+		}
+		if fn.Signature.Results().Len() == 0 {
+			return nil, true
+		}
+		return BoolV{e.P.Bool(was)}, true
 	case "time.Sleep":
 		e.advance(args[0].(IntV).T)
 		return nil, true
@@ -704,7 +747,7 @@ func (e *Exec) syncIntrinsic(fn *ssa.Function, name string, args []Value) (Value
 				break
 			}
 		}
-		e.timers = append(e.timers, c)
+		e.timers = append(e.timers, &timerEnt{deadline: c.deadline, ctx: c})
 		cancel := NativeFn(func([]Value) Value { e.schedPoint("cancel"); e.ctxCancel(c); return nil })
 		return TupleV{e.ctxIface(c), cancel}, true
 	case name == "context.WithValue":
